@@ -139,13 +139,17 @@ theorem kcenters_tri_agree (D : Table) (n : Nat) (cfg : Cfg)
             intro h
             exact ⟨h.1, h.2, radius_congr (fun f hf => (h.1.2.2 f hf).1) hn⟩
 
-/-- a cold plain call ends in a state that satisfies the farthest-first invariant -/
-theorem plain_cold_FarApart {D : Table} {n : Nat} {cfg : Cfg} {res : Result}
-    (hcold : cfg.init = none) (hplain : cfg.tri = false) (h : kcenters D n cfg = .ok res) :
-    0 < n ∧ FarApart D n res.st ∧ res.radius = radius n res.st := by
+/-- a plain call ends in a state that satisfies the farthest-first invariant for the centers added
+by the loop -/
+theorem plain_FarApart {D : Table} {n : Nat} {cfg : Cfg} {res : Result}
+    (hplain : cfg.tri = false) (h : kcenters D n cfg = .ok res) :
+    0 < n ∧ FarApart D n (initState D n cfg.init).centers.length res.st ∧
+      res.radius = radius n res.st ∧
+      res.st.centers.length = (initState D n cfg.init).centers.length + res.trace.length := by
   obtain ⟨nc, cut, _, _, hn, hl, hr⟩ := kcenters_ok h
-  rw [hcold, hplain] at hl
+  rw [hplain] at hl
   obtain ⟨a, _, _⟩ := loop_spec _ _ _ _ hl
-  exact ⟨hn, FarApart_iterN hn _ _ a, hr⟩
+  obtain ⟨_, l2⟩ := loop_lists _ _ _ _ hl
+  exact ⟨hn, FarApart_iterN hn _ _ _ a, hr, by rw [l2]; simp⟩
 
 end Ens.KC
